@@ -259,14 +259,12 @@ Section Reset.
     end.
 
   (* the two passes in the order mir::passes::run_passes runs them *)
+  (* pipeline order since /repo 0a1d247 (repair of D14): refs_validated runs BEFORE reset_values_converted *)
   Definition hash_passes (o : orders) (d : device) : pres device :=
-    match reset_values_converted o d with
-    | Accept d' => match refs_validated o d' with
-                   | Accept _ => Accept d'
-                   | Reject e => Reject e
-                   | Abort k => Abort k
-                   end
-    | r => r
+    match refs_validated o d with
+    | Accept _ => reset_values_converted o d
+    | Reject e => Reject e
+    | Abort k => Abort k
     end.
 End Reset.
 
